@@ -7,6 +7,7 @@
 #include <memory>
 #include <functional>
 #include <algorithm>
+#include <sstream>
 #include <random>
 #include <map>
 #include <kll_sketch.hpp>
@@ -85,7 +86,7 @@ template<class Sk, class Mk> static Scenario updates(const char* name, const cha
 }
 // the history continues on a COPY (copy constructor or copy assignment) taken after `pos(n)` updates: the copy must behave like the original -
 // in particular its coin state (REQ: the pending flipped coin of an odd compaction counter) must come along
-template<class Sk, class Mk, class Pos> static Scenario updates_copy(const std::string& name, const char* fam, int nmin, int nmax, uint64_t salt, bool assign, Mk mk, Pos pos) {
+template<class Sk, class Mk, class Pos> static Scenario updates_copy(const std::string& name, const char* fam, int nmin, int nmax, uint64_t salt, int route, Mk mk, Pos pos) {
   Scenario sc; sc.name = name; sc.fam = fam; sc.nmin = nmin; sc.nmax = nmax;
   sc.stream = [=](int n) { return values(n, salt, 0); };
   sc.run = [=](int n, const std::vector<double>& probes) {
@@ -94,8 +95,11 @@ template<class Sk, class Mk, class Pos> static Scenario updates_copy(const std::
     for (int i = 0; i < n; i++) {
       cur->update((float)v[i]); tick();
       if (i + 1 == p) {
-        if (assign) { std::unique_ptr<Sk> c(new Sk(mk(0))); c->update((float)v[0]); *c = *cur; cur.swap(c); }
-        else { std::unique_ptr<Sk> c(new Sk(*cur)); cur.swap(c); }
+        // route 0: copy constructor, 1: copy assignment, 2 / 3: the history continues on the sketch RESTORED from the bytes / stream image
+        if (route == 1) { std::unique_ptr<Sk> c(new Sk(mk(0))); c->update((float)v[0]); *c = *cur; cur.swap(c); }
+        else if (route == 0) { std::unique_ptr<Sk> c(new Sk(*cur)); cur.swap(c); }
+        else if (route == 2) { auto img = cur->serialize(); std::unique_ptr<Sk> c(new Sk(Sk::deserialize(img.data(), img.size()))); cur.swap(c); tick(); }
+        else { std::stringstream ss; cur->serialize(ss); std::unique_ptr<Sk> c(new Sk(Sk::deserialize(ss))); cur.swap(c); tick(); }
       }
     }
     return measure(*cur, probes);
@@ -354,20 +358,26 @@ int main(int argc, char** argv) {
   // the history continues on a COPY taken at several points (REQ: where the level-0 compaction counter is odd / even non-zero / zero)
   {
     std::vector<Scenario> pc; int j = 0;
-    for (int hra = 0; hra < 2; hra++) for (int cls = 0; cls < 3; cls++) for (int assign = 0; assign < 2; assign++, j++) {
-      const int at = req_lengths(hra == 1, assign)[cls] + (cls == 0 ? 7 : 0);
-      pc.push_back(updates_copy<R>(std::string("req-copy-at-") + "ZEO"[cls] + (assign ? "-assign" : "-ctor") + (hra ? "-hra" : "-lra"), "req", at + 70, at + 70,
-                                   seed * 11 + 80 + j, assign == 1, [=](int) { return R(4, hra == 1); }, [=](int) { return at; }));
+    static const char* RT[] = {"-ctor", "-assign", "-restore-bytes", "-restore-stream"};
+    for (int hra = 0; hra < 2; hra++) for (int cls = 0; cls < 3; cls++) for (int route = 0; route < 4; route++, j++) {
+      const int at = req_lengths(hra == 1, route % 2)[cls] + (cls == 0 ? 7 : 0);
+      pc.push_back(updates_copy<R>(std::string("req-copy-at-") + "ZEO"[cls] + RT[route] + (hra ? "-hra" : "-lra"), "req", at + 70, at + 70,
+                                   seed * 11 + 80 + j, route, [=](int) { return R(4, hra == 1); }, [=](int) { return at; }));
     }
-    for (int q = 1; q <= 3; q++) for (int assign = 0; assign < 2; assign++, j++) {
-      pc.push_back(updates_copy<K>(std::string("kll-copy-at-") + std::to_string(q) + "of4" + (assign ? "-assign" : "-ctor"), "kll", 40, 100, seed * 11 + 80 + j, assign == 1,
+    for (int q = 1; q <= 3; q++) for (int route = 0; route < 4; route++, j++) {
+      pc.push_back(updates_copy<K>(std::string("kll-copy-at-") + std::to_string(q) + "of4" + RT[route], "kll", 40, 100, seed * 11 + 80 + j, route,
                                    [](int) { return K(8); }, [=](int n) { return n * q / 4; }));
-      pc.push_back(updates_copy<Q>(std::string("classic-copy-at-") + std::to_string(q) + "of4" + (assign ? "-assign" : "-ctor"), "classic", 12, 20, seed * 11 + 110 + j, assign == 1,
+      pc.push_back(updates_copy<Q>(std::string("classic-copy-at-") + std::to_string(q) + "of4" + RT[route], "classic", 12, 20, seed * 11 + 110 + j, route,
                                    [](int) { return Q(2); }, [=](int n) { return n * q / 4; }));
     }
     // classic: target queried, then an estimating source with an EMPTY base buffer (n a multiple of 2k) merged, then queried at once
     pc.push_back(merged<Q>("classic-merge-cached-view-empty-base-buffer", "classic", 20, 20, seed * 11 + 140, false, [](int) { return Q(2); }, 40, 60));
     pc.push_back(merged<Q>("classic-merge-cached-view-empty-base-buffer-rvalue", "classic", 20, 20, seed * 11 + 141, true, [](int) { return Q(2); }, 40, 60));
+    // classic: an estimating source whose base buffer is NON-EMPTY and UNSORTED merged into an EMPTY / an EXACT target, measured at once
+    pc.push_back(merged<Q>("classic-merge-into-empty-unsorted-base-buffer", "classic", 22, 22, seed * 11 + 143, false, [](int) { return Q(2); }, 0, 100));
+    pc.push_back(merged<Q>("classic-merge-into-empty-unsorted-base-buffer-rvalue", "classic", 22, 22, seed * 11 + 144, true, [](int) { return Q(2); }, 0, 100));
+    pc.push_back(merged<Q>("classic-merge-into-exact-unsorted-base-buffer", "classic", 20, 20, seed * 11 + 145, false, [](int) { return Q(2); }, 10, 90));
+    pc.push_back(merged<Q>("classic-merge-into-exact-larger-k-unsorted-base-buffer", "classic", 20, 20, seed * 11 + 146, true, [](int j2) { return Q(j2 == 0 ? 4 : 2); }, 10, 90));
     parts.push_back(pc);
   }
   req_shapes(parts, 3, seed, 36);
